@@ -56,5 +56,6 @@ func (edb *EventDb) addBurnTicket(burnTicket BurnTicket) error {
 }
 
 func mergeAddBurnTicket() *eventsMergerImpl[BurnTicket] {
-	return newEventsMerger[BurnTicket](TagAddBurnTicket, withUniqueEventOverwrite())
+	// every burn creates its own ticket: keep all of them, also several to one ethereum address
+	return newEventsMerger[BurnTicket](TagAddBurnTicket)
 }
